@@ -19,7 +19,7 @@ import re
 from .. import core
 from ..constraints import CONSTRAINTS
 from ..pyeval import Evaluator, UNKNOWN
-from ..pymodel import PyModel, string_properties, strip_docstring, parse_ann, find_match
+from ..pymodel import PyModel, string_properties, strip_docstring, parse_ann, find_match, pmatch
 from ..pyscope import bound_in_block
 from ..tmodel import TemplateSet, cover, SymDict
 
@@ -614,8 +614,61 @@ def check_subpackage_listing(report, pm: PyModel):
                              f"package raises ModuleNotFoundError on import. Add `if <elem>.meta.address.subpackage == api.subpackage_view`")
 
 
+def check_python_package_exprs(report, pm: PyModel):
+    """C01.10: the directory an emitted module lands in is decided by Generator._get_filename from Naming (module_namespace,
+    versioned_module_name - both honour the name / namespace overrides) plus the sub-package. Every place in the schema that builds the
+    *import* package of an API-owned module must build it from the same three pieces; a package derived from the proto package
+    (convert_to_versioned_package) is only right for dependency packages generated elsewhere."""
+    r = report.rule("C01.10", "import packages of API-owned modules are built from Naming.module_namespace + versioned_module_name + subpackage", floor=6)
+    sites = []
+    for q, fi in sorted(pm.functions.items()):
+        if not q.startswith("gapic.schema."):
+            continue
+        parents = {}
+        for n in ast.walk(fi.node):
+            for c in ast.iter_child_nodes(n):
+                parents[c] = n
+        for n in ast.walk(fi.node):
+            if isinstance(n, ast.Call) and ast.unparse(n.func).split(".")[-1] in ("Address", "Import"):
+                for k in n.keywords:
+                    if k.arg == "package":
+                        sites.append((q, fi, n, k.value, parents))
+    r.need(len(sites) >= 6, "Address(...) / Import(...) constructions with package=", str(len(sites)))
+    own = 0
+    for q, fi, call, val, parents in sites:
+        src = ast.unparse(val)
+        r.instance(f"{q.rsplit('.', 2)[-2]}.{q.rsplit('.', 1)[-1]}: package={src[:80]}")
+        # enclosing if-tests
+        guards = []
+        n = call
+        while n in parents:
+            pnode = parents[n]
+            if isinstance(pnode, ast.If) and n in pnode.body:
+                guards.append(ast.unparse(pnode.test))
+            n = pnode
+        if isinstance(val, ast.Tuple) and all(isinstance(e, ast.Constant) for e in val.elts):
+            r.ok()                      # a fixed third-party package (google.api_core ...)
+            continue
+        if src in ("self.package",) or src.startswith("tuple(file_descriptor.package.split("):
+            r.ok()                      # the proto package itself (descriptor identity / pb2 imports)
+            continue
+        if "convert_to_versioned_package()" in src:
+            r.check(any(g == "self.is_proto_plus_type" for g in guards), fi.module.path, call.lineno, f"{q}: package={src[:100]}",
+                    "a package derived from the PROTO package is only right for proto-plus dependency packages; for modules this generator emits "
+                    "it ignores the python-gapic-name / -namespace overrides (and the naming of unversioned packages), so the emitted import "
+                    "names a package that does not exist")
+            continue
+        b = pmatch("_ANYN_.module_namespace + (_ANYM_.versioned_module_name,) + _ANYS_.subpackage + _ANYREST_", val)
+        ok = b is not None and b["_ANYN_"] == b["_ANYM_"] and b["_ANYN_"].endswith("api_naming")
+        own += 1 if ok else 0
+        r.check(ok, fi.module.path, call.lineno, f"{q}: package={src[:100]}",
+                "the import package of an API-owned module must be <naming>.module_namespace + (<naming>.versioned_module_name,) + <address>.subpackage + ...")
+    r.need(own >= 2 or r.violations, "own-package constructions (types, pagers)", str(own))
+
+
 def run(report, pm: PyModel):
     check_subpackage_listing(report, pm)
+    check_python_package_exprs(report, pm)
     check_with_context_pure(report, pm)
     check_import_closure(report, pm)
     check_module_graph(report, pm)
